@@ -1030,7 +1030,17 @@ def render_partitioned(r, iface, rng, location="http://svc.invalid/endpoint", sc
         root_inner = '<wsdl:import namespace="%s" location="%s"/>' % (wns, relative_to(root_url, iface_url, rng))
         if self_import:
             root_inner += '<wsdl:import namespace="%s" location="%s"/>' % (wns, root_url)
-        docs[root_url] = definitions(r, iface, wns, root_inner + sec["binding"] + sec["service"])
+        if rng.random() < 0.5:
+            # a diamond of wsdl:imports: the binding lives in a third document that imports the interface too
+            bind_url = url_for("binding.wsdl")
+            plan["wsdl_diamond"] = True
+            docs[bind_url] = definitions(r, iface, wns, '<wsdl:import namespace="%s" location="%s"/>'
+                                         % (wns, relative_to(bind_url, iface_url, rng)) + sec["binding"])
+            second = '<wsdl:import namespace="%s" location="%s"/>' % (wns, relative_to(root_url, bind_url, rng))
+            root_inner = (root_inner + second) if rng.random() < 0.5 else (second + root_inner)
+            docs[root_url] = definitions(r, iface, wns, root_inner + sec["service"])
+        else:
+            docs[root_url] = definitions(r, iface, wns, root_inner + sec["binding"] + sec["service"])
     else:
         root_inner = "".join(wimports)
         if self_import:
